@@ -1,0 +1,83 @@
+//go:build verif
+
+package goja
+
+import "sync/atomic"
+
+// Verification hooks, compiled only with the "verif" build tag.
+// They give a deterministic simulator a scheduling point at every VM instruction,
+// a read-only view of the VM's bookkeeping, and one "buggify" knob.
+
+const verifEnabled = true
+
+// VerifTick, when non-nil, is called at the top of every iteration of the VM main loop,
+// before the interrupt flag is polled.
+var VerifTick func(r *Runtime)
+
+// VerifForceStackRealloc, when non-nil and returning true, makes the value stack move to a freshly
+// allocated backing array on every growth (the old array is poisoned with nils).
+var VerifForceStackRealloc func() bool
+
+func verifTick(vm *vm) {
+	if f := VerifTick; f != nil {
+		f(vm.r)
+	}
+}
+
+func verifForceRealloc(s *valueStack, idx int) bool {
+	f := VerifForceStackRealloc
+	if f == nil || !f() {
+		return false
+	}
+	old := *s
+	newCap := idx * 2
+	if newCap < 8 {
+		newCap = 8
+	}
+	n := make([]Value, idx, newCap)
+	copy(n, old)
+	old = old[:cap(old)]
+	for i := range old {
+		old[i] = nil
+	}
+	*s = n
+	return true
+}
+
+// VerifState is a snapshot of the VM's internal bookkeeping.
+type VerifState struct {
+	CallStack, TryStack, IterStack, RefStack int
+	Sp, Sb, Pc, Args                         int
+	StackLen                                 int
+	PrgNil, StackNil                         bool
+	StashGlobal, PrivEnvNil                  bool
+	JobQueue                                 int
+	Interrupted                              bool
+	AsyncRunnerNil                           bool
+	ToStringStack                            int
+	MaxCallStackSize                         int
+}
+
+func (r *Runtime) VerifState() VerifState {
+	vm := r.vm
+	return VerifState{
+		CallStack:        len(vm.callStack),
+		TryStack:         len(vm.tryStack),
+		IterStack:        len(vm.iterStack),
+		RefStack:         len(vm.refStack),
+		Sp:               vm.sp,
+		Sb:               vm.sb,
+		Pc:               vm.pc,
+		Args:             vm.args,
+		StackLen:         len(vm.stack),
+		PrgNil:           vm.prg == nil,
+		StackNil:         vm.stack == nil,
+		StashGlobal:      vm.stash == &r.global.stash,
+		PrivEnvNil:       vm.privEnv == nil,
+		JobQueue:         len(r.jobQueue),
+		Interrupted:      atomic.LoadUint32(&vm.interrupted) != 0,
+		AsyncRunnerNil:   vm.curAsyncRunner == nil,
+		ToStringStack:    len(r.toStringStack),
+		MaxCallStackSize: vm.maxCallStackSize,
+	}
+}
